@@ -433,6 +433,31 @@ def _wrap_option(rng, L, length):
     return {"c": "Unmasked", "x": L}, length
 
 
+def _rand_overlong_record_layout(rng):
+    """a RecordArray at top level (sometimes below one list) whose fields are ALL longer than the record array itself and are
+    lists of lists: what ak.layout.RecordArray(contents, keys, length) or a carried / re-assembled record leaves behind"""
+    fields, lens = [], []
+    for _ in range(2):
+        n = rng.randint(3, 7)
+        F = _rand_leaf(rng, n)
+        for _lvl in range(2):
+            k = rng.randint(3, 5)
+            start = rng.randint(0, 1)
+            cuts = sorted(rng.randint(start, n) for _ in range(k + 1))
+            F = {"c": "ListOffset", "w": rng.choice(["64", "32", "U32"]), "o": cuts, "x": F}
+            n = k
+        fields.append(F)
+        lens.append(n)
+    length = rng.randint(0, min(lens) - 1)
+    L = {"c": "Record", "tuple": 0, "n": length, "names": ["x", "y"], "xs": fields}
+    if rng.random() < 0.3:
+        k = rng.randint(0, 3)
+        cuts = sorted(rng.randint(0, length) for _ in range(k + 1))
+        L = {"c": "ListOffset", "w": "64", "o": cuts, "x": L}
+        length = k
+    return L, length
+
+
 def _rand_record_layout(rng, depth, allow_union=False):
     """records in the middle: option-type fields below, options and lists above (what ak.zip / ak.mask / ak.pad_none
     of records leave behind)"""
